@@ -317,7 +317,11 @@ func runReaderC22(stream []byte, plan []int, chmax, zeros, nops int, menu []opC2
 			}
 		case opWriteToC22:
 			sink := &sinkC22{room: -1}
+			z0 := src.zeros
 			n, err := r.WriteTo(sink)
+			// Known defect: WriteTo's copy loop ends at the first fill that brings nothing, so one
+			// (0, nil) from the underlying reader is taken for the end of the stream (and err is nil).
+			vrt.Known("C22-writeto-stops-at-empty-read", src.zeros < z0)
 			vrt.Assert(int(n) == len(sink.data), "C22/writeto-count")
 			vrt.Assert(eqC22(sink.data, stream, cur), "C22/writeto-data")
 			cur += int(n)
@@ -504,4 +508,13 @@ func VerifC22_writer() {
 	for k := 0; k < nops; k++ {
 		vrt.Assert(cntOK[k], "C22/total-write")
 	}
+}
+
+// VerifC22_readerDeep: longer scripts (NOPS=3..) over the first MENU operations of menuShortC22
+// (ReadSlice, ReadLine, ReadByte, UnreadByte, ...) on very short streams: interactions such as
+// ReadByte, ReadSlice, UnreadByte need three operations.
+func VerifC22_readerDeep() {
+	L := vrt.Range("L", 0, vrt.Param("L", 2))
+	runReaderC22(vrt.Bytes("stream", L), nil, vrt.Param("CH", 1), 0, vrt.Param("NOPS", 3),
+		menuShortC22[:vrt.Param("MENU", 4)])
 }
